@@ -256,6 +256,81 @@ def retry_until_success(sl):
         observe("final outcome is exactly what the deciding attempt produced", how == ehow and val is eval_)
 
 
+def documented_retryable_operations():
+    """operation types whose section in docs/track.rst says 'This operation is retryable' (read from the tree under test)"""
+    import bisect
+    import os
+
+    path = os.path.join(os.path.dirname(os.path.dirname(os.path.abspath(runner.__file__.replace("/driver/", "/")))), "docs", "track.rst")
+    lines = open(path, encoding="utf-8").read().split("\n")
+    secs = []
+    for i in range(len(lines) - 1):
+        u = lines[i + 1]
+        if u and len(set(u)) == 1 and u[0] in "~\"^'.-=" and len(u) >= len(lines[i]) > 0 and not lines[i].startswith(" "):
+            secs.append((i, lines[i], u[0]))
+    idx = [x[0] for x in secs]
+    out = []
+    for i, l in enumerate(lines):
+        if "This operation is :ref:`retryable" in l:
+            j = bisect.bisect(idx, i) - 1
+            while secs[j][2] != "~":
+                j -= 1
+            out.append(secs[j][1])
+    return out
+
+
+DOCUMENTED = documented_retryable_operations()
+
+
+def registered_retryables(sl):
+    """every operation type documented as retryable is registered behind the real Retry wrapper and retries through the whole
+    registered chain (completion / assertion / cluster wrappers included)"""
+    global SLEEPS
+    SLEEPS = []
+    v = fresh_int("operation", 0, len(DOCUMENTED) - 1)
+    op = DOCUMENTED[core.concretize(v.z) if core.is_sym(v) else v]
+    core.note("operation", op)
+    runner.register_default_runners()
+    try:
+        registered = runner.runner_for(op)
+    except Exception as e:  # noqa: BLE001
+        core.note("runner_for", repr(e))
+        observe("a documented retryable operation has a registered runner", False)
+        return
+    x, retry = registered, None
+    for _ in range(8):
+        if isinstance(x, runner.Retry):
+            retry = x
+            break
+        x = getattr(x, "delegate", None) or getattr(x, "runnable", None)
+        if x is None:
+            break
+    observe("the registered runner of a documented retryable operation is wrapped in Retry", retry is not None)
+    if retry is None:
+        return
+    faults = fresh_int("timeouts_before_success", 0, 3)
+    faults = core.concretize(faults.z) if core.is_sym(faults) else faults
+    retries = fresh_int("retries", 0, 3)
+    retries = core.concretize(retries.z) if core.is_sym(retries) else retries
+    d = Delegate(lambda i: CONN_TIMEOUT if i < faults else OK_DICT)
+    real_delegate, retry.delegate = retry.delegate, d
+    try:
+        with shadowed(runner, (), extra={"asyncio": FakeAsyncio}):
+            how, val = drive(registered({"default": object()}, {"retries": retries, "retry-on-timeout": True, "retry-wait-period": 0.25,
+                                                                    # get-async-search retries until success by default (documented)
+                                                                    "retry-until-success": False}))
+    finally:
+        retry.delegate = real_delegate
+    core.trace("calls", d.calls)
+    core.note("observed", (d.calls, how, repr(val)[:80]))
+    observe("attempts through the registered chain: min(timeouts, retries) + 1", d.calls == min(faults, retries) + 1)
+    observe("pauses of retry-wait-period between the attempts", SLEEPS == [0.25] * (d.calls - 1))
+    if faults <= retries:
+        observe("the successful attempt's result is returned", how == "ret" and isinstance(val, dict) and val.get("attempt") == faults)
+    else:
+        observe("after the last attempt the timeout is raised", how == "raise" and isinstance(val, elasticsearch.exceptions.ConnectionTimeout))
+
+
 def enter_exit(sl):
     """__aenter__/__aexit__ delegate exactly once"""
     calls = []
@@ -292,5 +367,11 @@ HARNESSES = [
             lambda tier: [{"attempts": 4 if tier == "quick" else 6, "present": m} for m in range(16)], reads=READS,
             bounds={"attempts until the stub succeeds": "<=4 quick / <=6 thorough"},
             stubs=["delegate runner", "asyncio.sleep recorder"], doc="retry-until-success has no attempt bound and forces retry-on-error"),
+    Harness("registered_retryables", registered_retryables, "bounded-exhaustive", lambda tier: [{}],
+            reads=READS + [runner.register_default_runners, runner.register_runner, runner.runner_for],
+            bounds={"operations": "the %d operation types that docs/track.rst marks as retryable (parsed from the tree under test)" % len(DOCUMENTED),
+                    "timeouts before success": "0..3", "retries": "0..3"},
+            stubs=["the innermost runner is replaced by a stub delegate (the operation's own request is not issued)", "asyncio.sleep recorder"],
+            doc="documented retryable operations are registered behind Retry and retry end-to-end through the registered wrappers"),
     Harness("enter_exit", enter_exit, "bounded-exhaustive", lambda tier: [{}], reads=READS, doc="context manager delegation"),
 ]
